@@ -50,6 +50,7 @@ SCOPE = {
  "C08": "Proved: the write machine (immediate outside stabilise, deferred and composed in program order inside, applied at the end), readers see the pre-stabilise value during propagation. Fully covered by theorems",
  "C09": "Proved: the handler table (which previous/current pair delivers what), Initialised first and at most once, nothing after Invalidated, Changed only when the node changed this stabilise and never lost. Not proved: that the node is queued for its handlers whenever it changed (engine invariant) — correspondence + oracle",
  "C10": "Proved: the observer lifecycle automaton as a refinement of the engine's observer operations, and the frame (other observers unaffected). Fully covered by theorems",
+ "C11": "Proved as an invariant of every reachable state of debug builds (induction over arbitrary operation sequences, panicking operations included): a node is in queue h of the recompute heap exactly when its height_in_recompute_heap cell says h, and no queue lists a node twice — the heap's five operations proved by hand, every other engine function through the generated frame. Not proved: the other audit clauses (edge symmetry with matching indices, heights above the children's, heap = necessary and stale nodes, counters, handler counts) and release builds (where the heap's preconditions are not asserted) — full-state correspondence after every operation + audit oracle",
  "C12": "Proved about the ownership graph of the model: after a collection nothing unreferenced survives, no live object references a freed one, held objects survive, release does not change reads. The ownership graph itself (which field holds which strong reference) is tied to the crate by comparing Weak::upgrade of every node after every op",
  "C13": "Proved: any failing stabilise leaves the status non-NotStabilising, a further stabilise refuses, the poison is permanent over any operation sequence, reads after a propagation panic are refused. Dropping everything afterwards without panic is decided by the fault enumeration on the crate",
  "C14": "Proved: the children vector and the edges' index cells stay consistent through add_dependency and remove_dependency (duplicates and invalid children included), no other engine function writes them, callback delivery on linking (exactly when the node has run and the child has a value), no unwrap on a child without a value. Not proved: the value clause (node = reference combinator after every stabilise) and callback completeness over whole stabilisations — correspondence + oracle",
